@@ -4,7 +4,7 @@
 cd "$(dirname "$0")/.."
 git -C /repo diff --quiet || { echo "/repo has uncommitted changes"; exit 2; }
 declare -A ALSO=( [C05-m1]=C03 [C06-m2]=C06 [C13-m1]=C11 [C17-m1]=C13 )
-for d in seeded/*/; do
+for d in seeded/${1:-*}/; do
   id=$(basename $d); pid=${id%%-*}
   if ! git -C /repo apply --check $(realpath $d)/patch.diff 2>/dev/null; then echo "$id: PATCH DOES NOT APPLY"; continue; fi
   git -C /repo apply $(realpath $d)/patch.diff
